@@ -84,6 +84,11 @@ def attr_design(a, name, tprefix, types):
         att["type"] = {"kind": "map", "key": {"kind": "string"}, "elem": e}
         if contval:
             att["val"] = contval
+    elif nest == "mapval_elem":
+        e = dict(prim)
+        if leafval:
+            e["val"] = leafval
+        att["type"] = {"kind": "map", "key": {"kind": "string"}, "elem": {"kind": "array", "elem": e}}
     elif nest == "nested":
         tn = tprefix + "Nested"
         inner = {"name": "v", "type": prim, "required": True}
@@ -222,6 +227,10 @@ def concrete(a, v):
     """Concrete JSON datum (rt.Fill conventions) for abstract value v of attribute shape a; None = unset."""
     if is_absent(v):
         return None
+    if v["s"] == "nofield":
+        # what the generated encoder is given: complete objects; the member is removed on the wire (tamper_paths)
+        full = concrete(a, dict(v, s="plain", n=3))
+        return full
     leaf = concrete_leaf(a, v)
     nest, cn = a["nest"], v["cn"]
     if nest in ("direct", "alias", "whole"):
@@ -248,6 +257,14 @@ def concrete(a, v):
         if cn >= 1:
             m["k%d" % cn] = leaf
         return {"$map": m}
+    if nest == "mapval_elem":
+        # cn entries, each a list: one unremarkable element, the last list holds a second element, the leaf
+        m = {}
+        for i in range(cn - 1):
+            m["k%d" % (i + 1)] = [filler(a)]
+        if cn >= 1:
+            m["k%d" % cn] = [filler(a), leaf]
+        return {"$map": m}
     if nest == "mapkey_alias":
         return {"$map": {keystr(leaf): 7}}
     if nest == "nested_mapkey":
@@ -263,6 +280,44 @@ def concrete(a, v):
         m["k%d" % cn] = {"v": leaf}
         return {"$map": m}
     raise ValueError(nest)
+
+
+def tamper_paths(a, v, name):
+    """JSON paths (in the body on the wire) of the members a peer leaves out for value v of attribute `name`:
+    the required inner attribute `v` of the last object (value shape "nofield")."""
+    if is_absent(v) or v["s"] != "nofield":
+        return []
+    if a["nest"] == "nested":
+        return [[name, "v"]]
+    if a["nest"] == "elem_nested":
+        return [[name, str(v["cn"] - 1), "v"]]
+    if a["nest"] == "mapval_nested":
+        return [[name, "k%d" % v["cn"], "v"]]
+    raise ValueError("no member to leave out for nesting " + a["nest"])
+
+
+def without(datum, path):
+    """the concrete datum with the member at `path` (relative to the attribute) removed: what is on the wire"""
+    import copy
+    d = copy.deepcopy(datum)
+    cur = d
+    for k in path[:-1]:
+        if isinstance(cur, list):
+            cur = cur[int(k)]
+        elif "$map" in cur:
+            cur = cur["$map"][k]
+        else:
+            cur = cur[k]
+    del cur[path[-1]]
+    return d
+
+
+def sent_datum(a, v):
+    """what travels for value v: concrete(a, v) minus the members a peer leaves out"""
+    c = concrete(a, v)
+    for p in tamper_paths(a, v, "x"):
+        c = without(c, p[1:])
+    return c
 
 
 def keystr(x):
@@ -311,6 +366,8 @@ def method_design(idx, shape, types):
             # the element name IS the mapping of the whole payload
             if a["loc"] == "path":
                 path += "/{" + n + "}"
+            elif a["loc"] == "query" and a["nest"] == "whole_mapval":
+                http["mapParams"] = ""          # MapParams(): the map IS the query string
             elif a["loc"] == "query":
                 http["params"][ELEM["query"](n)] = ELEM["query"](n)
             elif a["loc"] == "header":
@@ -325,6 +382,8 @@ def method_design(idx, shape, types):
             http["headers"][n] = ELEM["header"](n)
         elif a["loc"] == "cookie":
             http["cookies"][n] = ELEM["cookie"](n)
+        if a["mode"] == "treq":         # optional in the payload, Required in the HTTP mapping only
+            http.setdefault({"query": "paramsRequired", "header": "headersRequired"}[a["loc"]], []).append(n)
     http["routes"][0]["path"] = path
     resp = {"status": 200, "headers": {}, "cookies": {}}
     for j, a in enumerate(ra):
@@ -336,6 +395,8 @@ def method_design(idx, shape, types):
             resp["headers"][n] = ELEM["header"](n)
         elif a["loc"] == "cookie":
             resp["cookies"][n] = ELEM["cookie"](n)
+        if a["mode"] == "treq":
+            resp.setdefault("headersRequired", []).append(n)
     responses = [resp]
     if shape.get("tagged"):
         tagged = json.loads(json.dumps(resp))
@@ -614,7 +675,7 @@ def observed_where(names_locs, wire, path_route=None):
     bk = body_keys(wire.get("body"))
     for n, loc in names_locs:
         s = set()
-        if ELEM["query"](n) in q:
+        if ELEM["query"](n) in q or any(k.startswith(ELEM["query"](n) + "[") for k in q):     # qa1=.. / qa1[key]=..
             s.add("query")
         if ELEM["header"](n).lower() in h:
             s.add("header")
@@ -631,7 +692,7 @@ def observed_where(names_locs, wire, path_route=None):
 def classify(dv, sent, dflt):
     if empty(dv) and (sent is None or empty(sent)):
         return "absent" if sent is None else "sent"
-    if dv is None:
+    if empty(dv):       # nil and empty containers are the same "nothing there"
         return "absent"
     if sent is not None and same(dv, sent):
         return "sent"
